@@ -13,6 +13,7 @@ pub mod c09;
 pub mod c10;
 pub mod c11;
 pub mod c12;
+pub mod c13;
 pub mod c16;
 pub mod c17;
 pub mod c18;
@@ -42,6 +43,7 @@ pub fn all() -> Vec<CheckDef> {
         c10::def(),
         c11::def(),
         c12::def(),
+        c13::def(),
         srvchecks::def_c15(),
         c16::def(),
         c17::def(),
